@@ -532,6 +532,123 @@ fn check_sequence(ctx: &mut Ctx, rng: &mut Rng) {
     ctx.count_n("fields_in_sequences", fields.len() as u64);
 }
 
+
+/// One parser, a history of reads, cursor skips (`consume_bits`, used by the text decoder) and reads that must be
+/// refused: after any history the parser's view is the pair (buffer, cursor) and nothing else.
+/// ops: [0, kind, w] = parse, [1, k, 0] = consume_bits(k)
+fn check_parser_history(ctx: &mut Ctx, buf: &[u8], start: usize, ops: &[(usize, usize, usize)]) {
+    ctx.eval();
+    let nbits = buf.len() * 8;
+    let replay = || json!({"kind":"parser_history","buffer":hex(buf),"start":start,"ops":ops.iter().map(|o| json!([o.0, o.1, o.2])).collect::<Vec<_>>()});
+    let r = guard(|| {
+        let mut par = Parser::new(buf, start);
+        let mut pos = start;
+        let mut refused = 0u64;
+        let mut refused_after_skip = 0u64;
+        let mut skipped = false;
+        for (i, &(op, a, w)) in ops.iter().enumerate() {
+            if op == 1 {
+                par.consume_bits(a);
+                pos += a;
+                skipped = true;
+                if par.offset() != pos {
+                    return Err(format!("op #{}: consume_bits({}) left the cursor at {} (expected {})", i, a, par.offset(), pos));
+                }
+                continue;
+            }
+            let kind = a;
+            macro_rules! go {
+                ($K:ty) => {{
+                    let r = par.parse::<<$K as Kind>::BV>(w);
+                    (matches!(r, Err(RtcmError::BufferOverflow)), r.ok().map(<$K as Kind>::to_i128))
+                }};
+            }
+            let (is_bo, got) = match kind {
+                0 => go!(KU8),
+                1 => go!(KU16),
+                2 => go!(KU32),
+                3 => go!(KU64),
+                4 => go!(KI8),
+                5 => go!(KI16),
+                6 => go!(KI32),
+                7 => go!(KI64),
+                8 => go!(KSM8),
+                9 => go!(KSM16),
+                10 => go!(KSM32),
+                _ => go!(KSM64),
+            };
+            if pos + w <= nbits {
+                let exp = ref_value(KIND_SIGN[kind], bits::read(buf, pos, w), w);
+                pos += w;
+                if got != Some(exp) || par.offset() != pos {
+                    return Err(format!("op #{}: parse::<{}>({}) at bit {} of {}: got {:?} (expected {}), cursor {} (expected {})", i, KIND_NAMES[kind], w, pos - w, nbits, got, exp, par.offset(), pos));
+                }
+            } else {
+                refused += 1;
+                if skipped {
+                    refused_after_skip += 1;
+                }
+                if !is_bo || par.offset() != pos {
+                    return Err(format!("op #{}: parse::<{}>({}) at bit {} of {} must be refused with BufferOverflow and leave the cursor: got {:?} refused={} cursor {}", i, KIND_NAMES[kind], w, pos, nbits, got, is_bo, par.offset()));
+                }
+            }
+        }
+        Ok((refused, refused_after_skip))
+    });
+    match r {
+        Err(p) => ctx.panic_violation("C07.no_panic", &p, "a history of parse / consume_bits calls on one parser", replay()),
+        Ok(Err(why)) => ctx.violation("C07.parser_history".into(), "C07.parser_history", why, replay()),
+        Ok(Ok((refused, ras))) => {
+            ctx.count("parser_histories");
+            ctx.count_n("parser_history_reads_refused", refused);
+            ctx.count_n("parser_history_reads_refused_after_a_skip", ras);
+        }
+    }
+}
+
+fn random_parser_history(ctx: &mut Ctx, rng: &mut Rng) {
+    let len = rng.range(1, 40) as usize;
+    let buf = rng.bytes(len);
+    let start = rng.usize_below(17.min(len * 8));
+    let n = rng.range(2, 16) as usize;
+    let mut ops = Vec::with_capacity(n);
+    let mut pos = start;
+    for _ in 0..n {
+        let left = (len * 8).saturating_sub(pos);
+        if rng.chance(1, 4) {
+            // skips: small, to just before the end, exactly to the end, past the end
+            let k = match rng.below(5) {
+                0 => rng.usize_below(9),
+                1 => left.saturating_sub(rng.usize_below(9)),
+                2 => left,
+                3 => left + rng.usize_below(70),
+                _ => rng.usize_below(left + 1),
+            };
+            ops.push((1usize, k, 0usize));
+            pos += k;
+        } else {
+            let kind = rng.usize_below(12);
+            let bm = KIND_BITS[kind];
+            let w = match rng.below(4) {
+                // aim at the end of the buffer: the last fitting width, one more, a few more
+                0 => (left + rng.usize_below(3)).clamp(1, bm),
+                1 => rng.range(1, 8.min(bm as i64)) as usize,
+                _ => rng.range(1, bm as i64) as usize,
+            };
+            ops.push((0usize, kind, w));
+            if pos + w <= len * 8 {
+                pos += w;
+            }
+        }
+    }
+    let mut h = crate::rng::hash_bytes(&buf);
+    for o in &ops {
+        h = crate::rng::mix(h, (o.0 as u64) << 40 ^ (o.1 as u64) << 20 ^ o.2 as u64);
+    }
+    ctx.nontrivial(h);
+    check_parser_history(ctx, &buf, start, &ops);
+}
+
 pub fn run(p: &Params) -> Outcome {
     let seed = p.seed;
     let (max_off, n_bg, n_random) = if p.thorough { (135usize, 8usize, 4000usize) } else { (135, 4, 300) };
@@ -556,6 +673,7 @@ pub fn run(p: &Params) -> Outcome {
         let mut rng = Rng::derive(seed, "C07.seq", w as u64);
         for _ in 0..per {
             check_sequence(ctx, &mut rng);
+            random_parser_history(ctx, &mut rng);
         }
     });
     total.merge(seqs);
@@ -563,9 +681,12 @@ pub fn run(p: &Params) -> Outcome {
     if total.get("overflow_cases") == 0 {
         total.inconclusive("overflow path not exercised".into());
     }
+    if total.get("parser_history_reads_refused_after_a_skip") == 0 {
+        total.inconclusive("no read was refused after a cursor skip".into());
+    }
     Outcome {
         ctx: total,
-        rule: format!("enumeration: 12 carriers x widths 1..=carrier x offsets 0..={} x {} backgrounds x (all values and all bit patterns for w<=12; boundaries, one-hot +-1, alternating and {} random values above) + short-buffer overflow cases; oracle = BitRef reference writer/reader; every enumerated (carrier,w,o,background,value) is distinct by construction and counted exactly", max_off, n_bg, n_random),
+        rule: format!("enumeration: 12 carriers x widths 1..=carrier x offsets 0..={} x {} backgrounds x (all values and all bit patterns for w<=12; boundaries, one-hot +-1, alternating and {} random values above) + short-buffer overflow cases + sequences of 2..14 puts on one assembler / parses on one parser + parser histories mixing reads, consume_bits skips (to, up to and past the end) and reads that must be refused; oracle = BitRef reference writer/reader; every enumerated (carrier,w,o,background,value) is distinct by construction and counted exactly", max_off, n_bg, n_random),
         exhaustive: false,
         extra: json!({"hook": "rtcm_rs::verif_hooks::{assembler,parser,bit_value}"}),
     }
@@ -573,6 +694,13 @@ pub fn run(p: &Params) -> Outcome {
 
 pub fn replay(_p: &Params, v: &Value) -> Outcome {
     let mut ctx = Ctx::new(0);
+    if v["kind"] == "parser_history" {
+        let buf = unhex(v["buffer"].as_str().unwrap_or(""));
+        let start = v["start"].as_u64().unwrap_or(0) as usize;
+        let ops: Vec<(usize, usize, usize)> = v["ops"].as_array().map(|a| a.iter().map(|o| (o[0].as_u64().unwrap_or(0) as usize, o[1].as_u64().unwrap_or(0) as usize, o[2].as_u64().unwrap_or(1) as usize)).collect()).unwrap_or_default();
+        check_parser_history(&mut ctx, &buf, start, &ops);
+        return Outcome { ctx, rule: "replay of one recorded parser history".into(), exhaustive: false, extra: json!({}) };
+    }
     if v["kind"] == "sequence" {
         // re-run the recorded sequence
         let bg = unhex(v["background"].as_str().unwrap_or(""));
